@@ -1,6 +1,6 @@
 """C02 eigen-decomposition: scale-homogeneous thresholds (E4)."""
 from sa.mir import AnchorError
-from sa.prov import render
+from sa.prov import render, subterms
 from props.C01 import run_e4
 
 LEVEL = "other"
@@ -188,3 +188,85 @@ def run(ck, prog):
 
 EXPLANATION += (' balance(): every update of a scale entry is multiplicative (scale[i] accumulates the factors of all sweeps); hqr2: the exceptional shift is subtracted from the diagonal entries 0..=nn of the active block (E2-provenance; three independent seeds each).')
 
+
+
+# ------------------------------------------------------------------ generic: no magnitude is compared with a signed raw element
+_run_pre_magnitude = run
+
+
+def run(ck, prog):
+    _run_pre_magnitude(ck, prog)
+    from sa import magnitude
+    magnitude.run_rule(ck, prog, set(DIMENSION_FILES))
+
+
+# ------------------------------------------------------------------ generic: backward strided scans (`j -= step`) continue exactly while j >= step
+_run_pre_subguard = run
+
+
+def run(ck, prog):
+    _run_pre_subguard(ck, prog)
+    from sa import subguard
+    subguard.run_rule(ck, prog, set(DIMENSION_FILES))
+
+
+# ------------------------------------------------------------------ tred2: the skip branch loads the NEXT row, not the row it clears
+_run_pre_tred2skip = run
+
+
+def tred2_skip_branch(ck, prog):
+    """When the sub-row of row i is exactly zero (scale == 0) the Householder step is skipped: the work vector is reloaded
+    from the next row to be processed (i - 1) while row / column i of V are cleared.  Reading the very cell that the same
+    branch sets to zero reloads the all-zero row that was just skipped, so the remaining couplings are lost.  Rule: in the
+    region selected by the zero edge of the `scale == 0` test, no cell (r, c) of V is both read and set to zero."""
+    from sa.e1 import BodyCtx
+    from sa.guards import ATOMS, NEG
+    rule, inst = "E2-provenance", "tred2: the skip branch (scale == 0) reloads from a row it does not clear"
+    b = prog.bodies.get("linalg::evd::tred2")
+    if b is None:
+        ck.violation(rule, inst, "linalg::evd::tred2", "", expected="anchor exists", found="anchor vanished")
+        return
+    cx = BodyCtx.of(b)
+    res = cx.res
+    is_zero = lambda t: t[0] == "call" and t[1].endswith("::zero") and not t[2]
+    n = 0
+    for c in cx.cmps:
+        if c.rel not in ("==", "!=") or not (is_zero(c.rhs) or is_zero(c.lhs)):
+            continue
+        subj = c.lhs if is_zero(c.rhs) else c.rhs
+        if not any(s[0] == "call" and s[1].endswith("::abs") for s in subterms(subj)):
+            continue                                             # the scale: a sum of magnitudes
+        zdst, other = (c.true_bb, c.false_bb) if "z" in ATOMS[c.rel] else (c.false_bb, c.true_bb)
+        region = {x for x in b.reach if b.dominates(zdst, x) and not b.dominates(other, x)}
+        reads, clears = [], []
+        for bb, t in b.calls():
+            if bb not in region:
+                continue
+            f = t.get("f")
+            if not f:
+                continue
+            nm = f["path"].split("::")[-1]
+            if nm == "get" and len(t["args"]) == 3:
+                reads.append((bb, res.operand(t["args"][1]), res.operand(t["args"][2])))
+            elif nm == "set" and len(t["args"]) == 4 and is_zero(res.operand(t["args"][3])):
+                clears.append((bb, res.operand(t["args"][1]), res.operand(t["args"][2])))
+        if not reads or not clears:
+            continue
+        n += 1
+        both = [(rb, r, cc) for rb, r, cc in reads for _, r2, c2 in clears if r == r2 and cc == c2]
+        if both:
+            ck.violation(rule, inst, b.path, b.where(both[0][0]), expected="the work vector is reloaded from row i - 1; row i is the one being cleared",
+                         found=f"the cell ({render(both[0][1])[:40]}, {render(both[0][2])[:40]}) is read and set to zero in the same branch")
+        else:
+            ck.ok(rule, inst, b.path, c.where, f"{len(reads)} read(s), {len(clears)} clear(s) in the skip branch, no cell is both")
+    if n == 0:
+        ck.note(f"{inst}: no zero-scale branch that both reads and clears cells of V recognised: no instance")
+
+
+def run(ck, prog):
+    _run_pre_tred2skip(ck, prog)
+    tred2_skip_branch(ck, prog)
+
+
+EXPLANATION += (" tred2: in the branch taken when the sub-row is exactly zero, no cell of V is both read and cleared (the work vector "
+                "comes from row i - 1, row i is the one cleared).")
